@@ -338,8 +338,15 @@ def ev(t, env):
     if k == 'size':
         return Result(ZERO | POS)
     if k == 'const':
-        if t[1] == 'inf':
+        c = str(t[1])
+        if c == 'inf':
             return Result(PINF)
+        if c.startswith('limits::max') or c.startswith('limits::epsilon') or c.startswith('limits::min'):
+            return Result(POS)
+        if c.startswith('limits::lowest'):
+            return Result(NEG)
+        if c.startswith('limits::quiet_NaN'):
+            return Result(NAN)
     return Result(TOP, True, 'atom without declared class: %s' % T.pretty(t)[:100])
 
 
